@@ -19,6 +19,8 @@
 //      final hook exactly once per run, state()/result() equal to what the callbacks said.
 //  (1) functional reference: a recursive evaluator of the pseudo-code over the scripted leaf outcomes predicts, per
 //      run of the root, the result and the (series-parallel) order of leaf starts.
+//  (2b) timeout timer model (round 6): setTimeout()/resetTimeout() on any node at any moment; onTimeout only while the model of
+//      action.cpp says the timer is armed and due, and an armed overdue timer must have fired by final quiescence.
 //  (3) metamorphic subs: `prefix; reset; S` vs `S` on a fresh tree (whole event trace); `S` vs `S + pause/resume pairs`.
 #include <nlohmann/json.hpp>
 #define VERIF_MAIN
@@ -53,7 +55,7 @@ namespace {
 static const bool kAvoid_none = false;
 
 // ------------------------------------------------------------------------------------------------------ scenario
-enum { CFG, NODE, CTL, CTLEV, CTLCB, ADV, PRE, PP, NOPS };
+enum { CFG, NODE, CTL, CTLEV, CTLCB, ADV, PRE, PP, TSET, TRESET, TSETEV, NOPS };
 enum Kind { K_SEQ, K_PAR, K_IFELSE, K_IFTHEN, K_SWITCH, K_LOOP, K_LOOPIF, K_REPEAT, K_WRAPPER, K_COMPOSITE,
             K_SUCC, K_FAIL, K_FUNC, K_DUMMY, K_SLEEP, NKIND };
 const char *kKindName[] = {"Sequence", "Parallel", "IfElse", "IfThen", "Switch", "Loop", "LoopIf", "Repeat", "Wrapper", "Composite",
@@ -101,9 +103,12 @@ std::string selMessage(int sel) { return sel >= 0 ? "case:" + std::to_string(sel
 struct Ctl { int tick, what, phase; };
 struct CtlEv { int cls, n, what, delay; };
 struct CtlCb { int n, what; };
+struct TSet { int tick, node, ms, phase; };     // setTimeout(ms) on any node at a pass of S; ms < 0: resetTimeout()
+struct TSetEv { int cls, n, node, ms; };        // the same in the pass in which the n-th event of a class happened
 struct Script {
   std::vector<Ctl> ctl; std::vector<CtlEv> ev; std::vector<CtlCb> cb; std::vector<std::pair<int, int64_t>> adv;
   std::vector<Ctl> pre; std::vector<std::array<int, 3>> pp;
+  std::vector<TSet> tset; std::vector<TSetEv> tsetev;
   int autores = 0; bool pre_stop = false; int destroyAt = 0;   // destroyAt: delete the whole tree after that pass of S (0 = never)
 };
 
@@ -170,6 +175,9 @@ Script parseScript(const Scenario &s) {
       case CTLCB: if (sc.cb.size() < 8) sc.cb.push_back({argIn(op, 0, 1, 12), (int)op.in(1, 0, NWHAT - 1)}); break;
       case ADV: if (sc.adv.size() < 8) sc.adv.push_back({(int)op.in(0, 0, kScriptTicks - 1), op.in(1, 0, 2000)}); break;
       case PRE: if (sc.pre.size() < 12) sc.pre.push_back({(int)op.in(0, 0, 15), (int)op.in(1, 0, NWHAT - 1), (int)op.in(2, 0, 1)}); break;
+      case TSET: if (sc.tset.size() < 8) { int64_t m = op.in(2, 0, 63); sc.tset.push_back({(int)op.in(0, 0, kScriptTicks - 1), (int)op.in(1, 0, kMaxNodes + 7), m == 0 ? 1 : (m <= 40 ? (int)m : (int)kLongTimeout), (int)op.in(3, 0, 1)}); } break;
+      case TRESET: if (sc.tset.size() < 8) sc.tset.push_back({(int)op.in(0, 0, kScriptTicks - 1), (int)op.in(1, 0, kMaxNodes + 7), -1, (int)op.in(2, 0, 1)}); break;
+      case TSETEV: if (sc.tsetev.size() < 6) { int64_t m = op.in(3, 0, 63); sc.tsetev.push_back({(int)op.in(0, 0, EC_LEAF_BLOCK), argIn(op, 1, 1, 12), (int)op.in(2, 0, kMaxNodes + 7), m == 0 ? 1 : (m <= 40 ? (int)m : (int)kLongTimeout)}); } break;
       case PP: if (sc.pp.size() < 6) sc.pp.push_back({(int)op.in(0, 0, kScriptTicks - 1), (int)op.in(1, 0, 6), (int)op.in(2, 0, 1)}); break;
       default: break;
     }
@@ -278,9 +286,9 @@ struct Matcher {
 // ------------------------------------------------------------------------------------------------------ real side
 enum { ST_IDLE, ST_RUN, ST_PAUSE, ST_FIN, ST_STOP };
 const char *kStName[] = {"idle", "running", "paused", "finished", "stopped"};
-enum { EV_S, EV_FT, EV_FF, EV_X, EV_P, EV_R, EV_Z, EV_B, EV_T, EV_L, EV_CBFT, EV_CBFF, EV_CBB, EV_CTL };
+enum { EV_S, EV_FT, EV_FF, EV_X, EV_P, EV_R, EV_Z, EV_B, EV_T, EV_L, EV_CBFT, EV_CBFF, EV_CBB, EV_CTL, EV_TSET = EV_CTL + NWHAT, EV_TRESET };
 const char *kEvName[] = {"start", "finish(succ)", "finish(fail)", "stop", "pause", "resume", "reset", "block", "timeout", "final-hook",
-                         "root-finish-callback(succ)", "root-finish-callback(fail)", "root-block-callback", "ctl-start", "ctl-pause", "ctl-resume", "ctl-stop", "ctl-reset"};
+                         "root-finish-callback(succ)", "root-finish-callback(fail)", "root-block-callback", "ctl-start", "ctl-pause", "ctl-resume", "ctl-stop", "ctl-reset", "setTimeout", "resetTimeout"};
 enum { PD_NONE, PD_START, PD_WAIT, PD_FINISH };
 struct Ent { int tick, node, kind; };
 inline bool operator==(const Ent &x, const Ent &y) { return x.tick == y.tick && x.node == y.node && x.kind == y.kind; }
@@ -313,6 +321,10 @@ struct NodeRt {
   std::vector<signed char> fin; int nfin = 0; bool trig = false;   // Parallel
   int idx = 0, remain = 0;
   bool tmoPending = false, byTimeout = false;
+  // model of the action's timeout timer, as action.cpp defines it: armed by start()/resume() and by setTimeout() on a RUNNING
+  // action, disarmed by pause()/finish/stop()/reset(), by resetTimeout() and by setTimeout() on an action that is not running;
+  // block() leaves it alone; every arming counts the full interval again (no remainder is kept across a pause)
+  bool hasTmo = false, armed = false, pausedByPause = false, setByScript = false; int64_t tmoDur = 0; uint64_t deadline = 0;
   // leaves
   int runs = 0, phase = 0, cd = 0, emitRes = -1;
 };
@@ -327,6 +339,7 @@ struct Run {
   bool inRootStart = false, scriptActive = false;
   const std::vector<Ctl> *prog = nullptr; int progBase = 0;
   std::vector<std::pair<int, int>> due;   // (ticks left, what)
+  std::vector<std::pair<int, int>> dueT;  // (node, ms) setTimeout calls to make in this pass's driver step
   int cnt[NEVCLASS] = {0, 0, 0, 0, 0, 0};
   int pendingFinishCb = 0, pendingBlockCb = 0;
   std::vector<RootRun> runs;
@@ -380,7 +393,7 @@ struct Run {
     if (!ok) fail("harness: adding a child to " + nn(n) + " was refused");
     rt[n].act = a;
     if (!isLeaf(d.kind)) static_cast<AssembleAction *>(a)->setFinalCallback([this, n] { runEv(this, n, EV_L); });
-    if (d.tmo) a->setTimeout(std::chrono::milliseconds(d.tmo));
+    if (d.tmo) { a->setTimeout(std::chrono::milliseconds(d.tmo)); rt[n].hasTmo = true; rt[n].tmoDur = d.tmo; }
     return a;
   }
   void buildTree() {
@@ -417,6 +430,7 @@ struct Run {
         if (d.parent >= 0) parentExpectStart(d.parent, n);
         else if (!inRootStart) fail("the root was started, but not by the control script");
         x.st = ST_RUN; x.res = -1; x.ended = false; x.finals = 0; x.tmoPending = false; x.finTick = -1;
+        x.armed = x.hasTmo; x.deadline = now + (uint64_t)x.tmoDur;
         if (n == 0) { runs.emplace_back(); pendingFinishCb = 0; pendingBlockCb = 0; }
         if (leaf) {
           if (runs.empty()) runs.emplace_back();
@@ -438,29 +452,34 @@ struct Run {
         else if (x.pend != PD_FINISH) fail(nn(n) + " finished(" + (r ? "succ" : "fail") + ") although its documented flow " + describePend(n));
         else if (x.pendRes != r) fail(nn(n) + " finished with " + (r ? "success" : "failure") + ", documented result is " + (x.pendRes ? "success" : "failure"));
         x.byTimeout = x.tmoPending;
-        x.st = ST_FIN; x.res = r; x.ended = true; x.pend = PD_NONE; x.tmoPending = false; x.finTick = tick;
+        x.st = ST_FIN; x.res = r; x.ended = true; x.pend = PD_NONE; x.tmoPending = false; x.finTick = tick; x.armed = false;
         if (d.parent >= 0) { childFinished(d.parent, n, r); bump(leaf ? EC_LEAF_FIN : EC_NODE_FIN); }
         else { pendingFinishCb = 1; if (!runs.empty()) runs.back().result = r; if (leaf) bump(EC_LEAF_FIN); }
         break; }
       case EV_X:
-        x.st = ST_STOP; x.ended = true; x.pend = PD_NONE; x.tmoPending = false; x.toStartLeft = 0;
+        x.st = ST_STOP; x.ended = true; x.pend = PD_NONE; x.tmoPending = false; x.toStartLeft = 0; x.armed = false;
         if (n == 0 && !runs.empty()) runs.back().stopped = true;
         break;
-      case EV_P: x.st = ST_PAUSE; break;
-      case EV_R: x.st = ST_RUN; break;
+      case EV_P: x.st = ST_PAUSE; x.armed = false; x.pausedByPause = true; break;
+      case EV_R: x.st = ST_RUN; x.pausedByPause = false; if (x.hasTmo && !x.armed) { x.armed = true; x.deadline = now + (uint64_t)x.tmoDur; } break;
       case EV_Z:
         checkFinals(n);
         if (x.st == ST_RUN || x.st == ST_PAUSE) { if (n == 0) { resetUnderway = true; if (!runs.empty()) runs.back().reset = true; } }
-        x.st = ST_IDLE; x.res = -1; x.ended = false; x.finals = 0; x.pend = PD_NONE; x.tmoPending = false; x.toStartLeft = 0;
+        x.st = ST_IDLE; x.res = -1; x.ended = false; x.finals = 0; x.pend = PD_NONE; x.tmoPending = false; x.toStartLeft = 0; x.armed = false;
         if (n == 0) { pendingFinishCb = 0; pendingBlockCb = 0; }
         break;
       case EV_B:
         if (x.st == ST_IDLE) { fail(nn(n) + " accepted block() although it is idle (never started or reset): stale block"); staleProbe = true; }
+        if (x.st == ST_RUN) x.pausedByPause = false;
         x.st = ST_PAUSE; blockSeen = true;
         if (n == 0) { if (pendingBlockCb > 0) twoBlocksInFlight = true; pendingBlockCb++; bump(EC_ROOT_BLOCK); } else if (leaf) bump(EC_LEAF_BLOCK);
         break;
       case EV_T:
         anyTimeout = true; if (!runs.empty()) runs.back().tmo = true;
+        if (!x.armed) fail("the timeout of " + nn(n) + " fired although its timer is not armed: the action is " + kStName[x.st] + (x.pausedByPause ? " (by pause(), which switches the timer off until resume())" : "") + (x.hasTmo ? "" : " and has no timeout configured"));
+        else if (now < x.deadline) fail("the timeout of " + nn(n) + " fired " + std::to_string(x.deadline - now) + " ms early");
+        if (x.setByScript) timeoutAfterSet = true;
+        x.armed = false;
         if (x.st == ST_RUN || x.st == ST_PAUSE) x.tmoPending = true;
         break;
       case EV_L:
@@ -474,6 +493,7 @@ struct Run {
     cnt[cls]++;
     if (!scriptActive) return;
     for (auto &e : S.ev) if (e.cls == cls && e.n == cnt[cls]) due.push_back({e.delay, e.what});
+    for (auto &e : S.tsetev) if (e.cls == cls && e.n == cnt[cls]) dueT.push_back({e.node, e.ms});
   }
   void checkFinals(int n) {
     NodeRt &x = rt[n];
@@ -630,6 +650,20 @@ struct Run {
     }
   }
 
+  // ---- setTimeout(ms) / resetTimeout() (ms < 0) on any node, at any moment
+  void applyTimeout(int node, int ms) {
+    if (!err.empty() || !root || frozen) return;
+    int n = node % (int)rt.size(); NodeRt &x = rt[n];
+    note(n, ms < 0 ? EV_TRESET : EV_TSET);
+    const char *stc[] = {"settimeout_while_idle", "settimeout_while_running", "settimeout_while_paused", "settimeout_after_finish", "settimeout_after_stop"};
+    tmoClasses.insert(ms < 0 ? "resettimeout_called" : (x.st == ST_PAUSE && !x.pausedByPause ? "settimeout_while_blocked" : stc[x.st]));
+    if (ms >= 0 && x.st == ST_PAUSE && n != 0) tmoClasses.insert("settimeout_on_paused_descendant");
+    if (ms < 0) { x.act->resetTimeout(); x.hasTmo = false; x.armed = false; return; }
+    x.act->setTimeout(std::chrono::milliseconds(ms));
+    x.hasTmo = true; x.tmoDur = ms; x.armed = x.st == ST_RUN; x.deadline = now + (uint64_t)ms; x.setByScript = true;
+  }
+  std::set<std::string> tmoClasses; bool timeoutAfterSet = false;
+
   // ---- one driver step (= one loop pass; the driver task is the last task of every pass)
   void emissions() {
     for (size_t n = 0; n < rt.size() && err.empty(); ++n) {
@@ -646,9 +680,12 @@ struct Run {
   void step(int64_t advance) {
     int rel = tick - progBase;
     if (prog) for (auto &c : *prog) if (c.tick == rel && c.phase == 0) apply(c.what);
+    if (scriptActive) for (auto &t : S.tset) if (t.tick == rel && t.phase == 0) applyTimeout(t.node, t.ms);
     if (scriptActive) for (auto &p : S.pp) if (p[0] == rel && p[2] == 0) ppPause(rel + p[1]);
     emissions();
     if (prog) for (auto &c : *prog) if (c.tick == rel && c.phase == 1) apply(c.what);
+    if (scriptActive) for (auto &t : S.tset) if (t.tick == rel && t.phase == 1) applyTimeout(t.node, t.ms);
+    { auto fireT = dueT; dueT.clear(); for (auto &t : fireT) applyTimeout(t.first, t.second); }
     if (scriptActive) for (auto &p : S.pp) if (p[0] == rel && p[2] == 1) ppPause(rel + p[1]);
     { std::vector<std::pair<int, int>> keep, fire;
       for (auto &d : due) { if (d.first <= 0) fire.push_back(d); else keep.push_back({d.first - 1, d.second}); }
@@ -705,6 +742,9 @@ struct Run {
       if (x.pend == PD_START || x.pend == PD_FINISH) { fail(nn((int)n) + " is stuck: it is running, nothing is pending in the loop, and its documented flow " + describePend((int)n)); return; }
       if (x.pend == PD_WAIT && rt[x.pendChild].st != ST_RUN && rt[x.pendChild].st != ST_PAUSE) { fail(nn((int)n) + " is stuck: it is running and waits for child " + nn(x.pendChild) + " which is " + kStName[rt[x.pendChild].st]); return; }
     }
+    for (size_t n = 0; n < rt.size() && err.empty(); ++n)
+      if (rt[n].armed && (rt[n].st == ST_RUN || rt[n].st == ST_PAUSE) && now > rt[n].deadline + 1000)
+        fail("the timeout of " + nn((int)n) + " is armed (" + std::to_string(rt[n].tmoDur) + " ms, the action is " + kStName[rt[n].st] + ") and long overdue, but never fired");
     if (rt[0].st == ST_FIN && pendingFinishCb) fail("the root finished but its finish callback was never delivered");
   }
   void checkAllDead() {
@@ -755,6 +795,7 @@ ExecInfo execute(Run &R, bool withPrefix) {
   for (auto &c : R.S.ctl) scriptLen = std::max(scriptLen, c.tick + 1);
   for (auto &p : R.S.pp) scriptLen = std::max(scriptLen, p[0] + p[1] + 1);
   for (auto &a : R.S.adv) scriptLen = std::max(scriptLen, a.first + 1);
+  for (auto &t : R.S.tset) scriptLen = std::max(scriptLen, t.tick + 1);
   vloop::drive(R.loop, [&](int) -> bool {
     if (!R.err.empty()) return false;
     switch (ph) {
@@ -778,6 +819,7 @@ ExecInfo execute(Run &R, bool withPrefix) {
       case 2:
         R.prog = &R.S.ctl; R.progBase = R.tick; R.scriptActive = true; R.due.clear();
         for (int &c : R.cnt) c = 0;
+        R.dueT.clear();
         xi.mark = R.trace.size(); xi.base = R.tick; lastSize = R.trace.size();
         ph = 3;
         // fall through
@@ -806,7 +848,7 @@ ExecInfo execute(Run &R, bool withPrefix) {
       case 6:
         if (!R.nonquiescent) R.checkQuiescent();
         R.checkReference();
-        R.scriptActive = false; R.prog = nullptr; R.due.clear(); R.ppOpen.clear();
+        R.scriptActive = false; R.prog = nullptr; R.due.clear(); R.dueT.clear(); R.ppOpen.clear();
         if (R.rt[0].st == ST_RUN || R.rt[0].st == ST_PAUSE) R.apply(W_STOP);
         R.frozen = true;
         ph = 7; cntInPhase = 0;
@@ -829,6 +871,9 @@ struct Env {
 };
 void destroyTree(Run &R, Env &E) { delete R.root; R.root = nullptr; E.settle(); }
 
+const char *strdupOnce(const std::string &s) {   // CaseInfo keeps const char*: intern the few dynamic class names
+  static std::set<std::string> pool; return pool.insert(s).first->c_str();
+}
 void shapeClasses(const Tree &T, CaseInfo &info) {
   info.cls_if(T.depth >= 3, "depth>=3"); info.cls_if(T.depth >= 4, "depth=4");
   info.cls_if(T.hasPar, "has_parallel"); info.cls_if(T.hasPar && T.hasSerial, "parallel+serial");
@@ -853,6 +898,8 @@ std::string runTree(const Scenario &s, CaseInfo &info) {
   info.cls_if(finished, "root_finished"); info.cls_if(stopped, "root_stopped_under_way");
   info.cls_if(R.nonquiescent, "endless_loop"); info.cls_if(R.refCompared, "reference_result_compared");
   info.cls_if(R.refOrderCompared, "reference_start_order_compared"); info.cls_if(R.refSkipped, "reference_skipped_for_a_run");
+  for (auto &c : R.tmoClasses) info.cls(strdupOnce(c));
+  info.cls_if(R.timeoutAfterSet, "timeout_fired_after_settimeout");
   info.cls_if(R.nCtlApplied >= 4, "ctl_calls>=4"); info.cls_if(R.destroyed, "tree_destroyed_mid_run"); info.cls_if(R.sleepAnomaly, "sleep_anomaly");
   info.nontrivial = T.depth >= 3 && T.hasPar && T.hasSerial && (R.between || rerun);
   return R.err;
@@ -888,7 +935,7 @@ std::string runResetMeta(const Scenario &s, CaseInfo &info) {
 
 // ---------------------------------------------------------------------------------------------- sub `pause_meta`
 std::string runPauseMeta(const Scenario &s, CaseInfo &info) {
-  Tree T = parseTree(s, true, true); Script S = parseScript(s); S.pre.clear(); S.ev.clear(); S.cb.clear(); S.destroyAt = 0;
+  Tree T = parseTree(s, true, true); Script S = parseScript(s); S.pre.clear(); S.ev.clear(); S.cb.clear(); S.tset.clear(); S.tsetev.clear(); S.destroyAt = 0;
   { std::vector<Ctl> keep; for (auto &c : S.ctl) if (c.what == W_START) keep.push_back(c); if (keep.empty()) keep.push_back({0, W_START, 0}); S.ctl.swap(keep); }
   if (S.autores == 0) S.autores = 2;   // a leaf that blocks is always resumed: otherwise the resume() of an inserted pair would double as that resume
   Script SA = S; SA.pp.clear();
@@ -1042,6 +1089,25 @@ void genTree(Rng &g, Scenario &sc, bool timeouts, bool sleeps, bool blocky) {
 }
 int64_t genWhat(Rng &g) { return g.pick({{2, W_START}, {30, W_PAUSE}, {26, W_RESUME}, {22, W_STOP}, {12, W_RESET}}); }
 
+// setTimeout()/resetTimeout() at arbitrary moments; 40 % of them inside a generated pause of the root that outlasts the timeout
+void genTimeoutOps(Rng &g, Scenario &sc, int pct) {
+  if (!g.chance(pct)) return;
+  int n = (int)g.pick({{60, 1}, {30, 2}, {10, 3}});
+  for (int i = 0; i < n; ++i) {
+    int64_t node = g.pick({{35, 0}, {65, -1}}); if (node < 0) node = g.rng(0, kMaxNodes - 1);
+    int64_t ms = g.pick({{45, -1}, {30, -2}, {25, 50}}); if (ms == -1) ms = g.rng(1, 4); else if (ms == -2) ms = g.rng(5, 40);
+    switch (g.pick({{40, 0}, {30, 1}, {12, 2}, {18, 3}})) {
+      case 0: { int64_t t = g.rng(0, 10), len = g.pick({{25, -1}, {75, -2}}); if (len == -2) len = g.rng(2, 9);   // pause; setTimeout; (resume)
+        mk(sc, CTL, {t, W_PAUSE, g.rng(0, 1)});
+        mk(sc, TSET, {t + g.rng(0, 1), node, ms, 1});
+        if (len >= 0) mk(sc, CTL, {t + len, W_RESUME, g.rng(0, 1)});
+        break; }
+      case 1: mk(sc, TSET, {g.rng(0, 14), node, ms, g.rng(0, 1)}); break;
+      case 2: mk(sc, TRESET, {g.rng(0, 14), node, g.rng(0, 1)}); break;
+      default: mk(sc, TSETEV, {g.pick({{35, EC_LEAF_FIN}, {20, EC_NODE_FIN}, {15, EC_LEAF_START}, {15, EC_ROOT_BLOCK}, {15, EC_LEAF_BLOCK}}), g.pick({{50, 1}, {30, 2}, {20, 3}}), node, ms}); break;
+    }
+  }
+}
 Scenario expandTree(int64_t seed) {
   Rng g(seed); Scenario sc; bool blocky = g.chance(14);
   mk(sc, CFG, {blocky ? g.pick({{60, 1}, {25, 2}, {15, 0}}) : g.pick({{18, 0}, {30, 1}, {30, 2}, {12, 3}, {10, 4}}), 0, g.chance(6) ? g.rng(1, 14) : 0});
@@ -1074,6 +1140,7 @@ Scenario expandTree(int64_t seed) {
       }
     }
   }
+  genTimeoutOps(g, sc, 22);
   return sc;
 }
 Scenario expandResetMeta(int64_t seed) {
@@ -1088,6 +1155,7 @@ Scenario expandResetMeta(int64_t seed) {
   if (g.chance(40)) { int64_t t = g.rng(0, 10); mk(sc, CTL, {t, W_PAUSE, g.rng(0, 1)}); mk(sc, CTL, {t + g.rng(0, 4), W_RESUME, g.rng(0, 1)}); }
   if (g.chance(20)) mk(sc, CTL, {g.rng(2, 14), W_STOP, g.rng(0, 1)});
   if (g.chance(20)) mk(sc, ADV, {g.rng(0, 12), 700});
+  genTimeoutOps(g, sc, 15);
   return sc;
 }
 Scenario expandPauseMeta(int64_t seed) {
@@ -1144,8 +1212,8 @@ void dumpSeed(const Scenario &s, const std::vector<int> &arity) {
 }
 #endif
 
-const std::vector<const char *> kOpNames = {"cfg", "node", "ctl", "ctlev", "ctlcb", "adv", "pre", "pp"};
-const std::vector<int> kOpArity = {3, 6, 3, 4, 2, 2, 3, 3};
+const std::vector<const char *> kOpNames = {"cfg", "node", "ctl", "ctlev", "ctlcb", "adv", "pre", "pp", "tset", "treset", "tsetev"};
+const std::vector<int> kOpArity = {3, 6, 3, 4, 2, 2, 3, 3, 4, 3, 4};
 
 SubDef defTree = [] {
   SubDef d; d.name = "tree"; d.op_names = kOpNames; d.op_arity = kOpArity;
